@@ -353,6 +353,8 @@ RESP_TWO_NAMES_MSG = {"action": 2, "status": 0xF, "first": "a", "second": "bc", 
 RESP_ONE_NAME = {"action": 5, "status": 0, "first": "d", "second": None, "msg": b""}
 RESP_TWO_NAMES = {"action": 3, "status": 1, "first": "x.txt", "second": "y.txt", "msg": b""}
 RESP_ONE_NAME_MSG = {"action": 1, "status": 0, "first": "f", "second": None, "msg": bytes(range(200))}
+RESP_REPLACE = {"action": 4, "status": 0, "first": "old.bin", "second": "new.bin", "msg": b"r"}  # the third two-name action (rename 2, append 3, replace 4)
+OPTS_REPLACE_REQ = [{"t": "fsreq", "action": 4, "first": "old.bin", "second": "new.bin"}, {"t": "fsreq", "action": 3, "first": "a", "second": "b"}]
 OPT_FLOW = {"t": "flow", "v": b"xy"}
 OPTS_MIXED = [{"t": "msg", "v": b"hello"}, {"t": "fsreq", "action": 1, "first": "f", "second": None},
               {"t": "fault", "cc": 6, "handler": 4}]
